@@ -160,9 +160,16 @@ func (g *G) assignStmt() []Stmt {
 			if v.fnLevel != g.sc.level {
 				g.f("assign-captured")
 			}
-			ops := []string{"+=", "-=", "*=", "|=", "&=", "^="}
+			ops := []string{"+=", "-=", "*=", "|=", "&=", "^=", "&^=", "/=", "%=", "<<=", ">>="}
 			g.f("compound-assign")
-			return []Stmt{&Assign{Targets: []Expr{Id(v.Name)}, Op: ops[g.pick(len(ops), "cmpop")], X: g.intExpr(g.depth())}}
+			op := ops[g.pick(len(ops), "cmpop")]
+			switch op {
+			case "/=", "%=": // a non-zero literal divisor
+				return []Stmt{&Assign{Targets: []Expr{Id(v.Name)}, Op: op, X: IntLit(int64(g.intn(1, 7, "cmpdiv")))}}
+			case "<<=", ">>=": // a small non-negative shift count
+				return []Stmt{&Assign{Targets: []Expr{Id(v.Name)}, Op: op, X: IntLit(int64(g.intn(0, 5, "cmpsh")))}}
+			}
+			return []Stmt{&Assign{Targets: []Expr{Id(v.Name)}, Op: op, X: g.intExpr(g.depth())}}
 		}
 	case 3:
 		if vs := g.assignable(KInt); len(vs) > 0 {
@@ -177,9 +184,10 @@ func (g *G) assignStmt() []Stmt {
 			g.f("index-assign")
 			if g.chance(50, "selset") {
 				if g.chance(30, "selcompound") {
+					cop := []string{"+=", "-=", "*=", "|=", "&^=", "^="}[g.pick(6, "selcop")]
 					return []Stmt{
 						&Assign{Targets: []Expr{&Selector{X: Id(v.Name), Name: key}}, Op: "=", X: g.intExpr(1)},
-						&Assign{Targets: []Expr{&Selector{X: Id(v.Name), Name: key}}, Op: "+=", X: g.intExpr(1)},
+						&Assign{Targets: []Expr{&Selector{X: Id(v.Name), Name: key}}, Op: cop, X: g.intExpr(1)},
 					}
 				}
 				return []Stmt{&Assign{Targets: []Expr{&Selector{X: Id(v.Name), Name: key}}, Op: "=", X: g.elemExpr(g.depth())}}
